@@ -407,6 +407,160 @@ def monitor_share(case, iout, shape0):
             fail(i, "unparsable/incomplete output (%s): %s" % (type(ex).__name__, o[:120])); break
     return bad
 
+# ------------------------------------------------------------------ weighted stream (C03Weighted.v)
+def parse_w(sx):
+    """'[10:0:21,11:1:23|12:2:25]' -> batches of (id,label,weight); None if malformed"""
+    if "!" in sx or "?" in sx: return None
+    sx = sx.strip()[1:-1]
+    if sx == "": return []
+    out = []
+    for b in sx.split("|"):
+        row = []
+        for e in b.split(","):
+            i, l, w = e.split(":"); w = float(w)
+            row.append((int(i), int(l), int(w) if w == int(w) else w))
+        out.append(row)
+    return out
+
+class GenWeighted:
+    """histories over 4 registers of WeightedLabeledData: elements are ids, the weight of element id is 2*id+1 (distinct), so a
+    weight that leaves its element is visible; uniform weights, subsets, splice, append, repartition, splitBatch, bootstrap"""
+    def __init__(self, rng, big): self.r = rng; self.big = big
+    def case(self):
+        r = self.r; lines = ["C %d" % r.randrange(1, 10**6)]; sizes = {}; nid = [1]
+        def new(reg):
+            n = r.choice([1, 2, 3, 4, 5, 6, 7, 8, 9, 10, 12] + ([17, 25] if self.big else [])); m = r.choice([0, 1, 2, 3, 4, n, n + 1])
+            labs = [r.randrange(3) for _ in range(n)]; ids = list(range(nid[0], nid[0] + n)); nid[0] += n
+            lines.append("QN %d %d %d %s %s %s" % (reg, n, m, " ".join(map(str, labs)), " ".join(map(str, ids)), " ".join(str(2 * i + 1) for i in ids)))
+            sizes[reg] = py_opt_sizes(n, 256 if m == 0 else m)
+        new(0)
+        for _ in range(r.randint(3, 18 if not self.big else 40)):
+            regs = [k for k in sizes if sizes[k]]
+            if not regs: new(0); continue
+            g = r.choice(regs); sz = sizes[g]; n = sum(sz); nb = len(sz); x = r.random(); others = [k for k in range(4) if k != g]
+            if x < 0.08: new(r.randrange(4))
+            elif x < 0.18: q = r.choice(others); lines.append("QU %d %d %d" % (g, q, r.choice([0, 1, 2, 5]))); sizes[q] = list(sz)
+            elif x < 0.32:
+                q = r.choice(others); idx = [r.randrange(nb) for _ in range(r.randint(0, nb + 1))]
+                lines.append("QI %d %d %s" % (g, q, " ".join(map(str, idx)))); sizes[q] = [sz[i] for i in idx]
+            elif x < 0.44: q = r.choice(others); b = r.randint(0, nb); lines.append("QL %d %d %d" % (g, q, b)); sizes[g] = sz[:b]; sizes[q] = sz[b:]
+            elif x < 0.54 and len(regs) > 1: q = r.choice([k for k in regs if k != g]); lines.append("QA %d %d" % (g, q)); sizes[g] = sz + sizes[q]
+            elif x < 0.66:
+                parts = []; left = n
+                while left > 0:
+                    pp = r.randint(1, left); parts.append(pp); left -= pp
+                lines.append("QP %d %s" % (g, " ".join(map(str, parts)))); sizes[g] = parts
+            elif x < 0.76:
+                b = r.randrange(nb); k = r.randint(0, sz[b]); lines.append("QS %d %d %d" % (g, b, k))
+                if 0 < k < sz[b]: sizes[g] = sz[:b] + [k, sz[b] - k] + sz[b + 1:]
+            elif x < 0.92:
+                # bootstrap: default size, size = n, size < n (every element must still be drawable), size > n (must not throw)
+                q = r.choice(others); size = r.choice([0, n, max(1, n // 3), 1, 2 * n, n + 3]); lines.append("QB %d %d %d" % (g, q, size)); sizes[q] = list(sz)
+            else: lines.append("QX %d" % g)
+        return lines
+
+def resolve_w(case, iout):
+    """bootstrap: hand the model a draw sequence with the counts the library produced (the result depends on the counts only:
+    C03_bootstrap_counts)"""
+    res = []
+    for l, o in zip(case, iout):
+        t = l.split(); new = l
+        if t[0] == "QB":
+            try:
+                ws = [e[2] for e in flat(parse_w(fields(o)["Q%s" % t[2]]))]
+                new = l + " " + " ".join(str(i) for i, w in enumerate(ws) for _ in range(int(w)))
+            except Exception: new = l
+        res.append(new)
+    return res
+
+BOOT_STAT = {"small": 0, "beyond": 0}
+
+def monitor_w(case, iout, prop):
+    bad = []; Q = {}; sh = {}
+    def fail(i, msg): bad.append("line %d `%s`: %s" % (i, case[i][:60], msg))
+    for i, (l, o) in enumerate(zip(case, iout)):
+        t = l.split(); c = t[0]
+        if c == "C": Q = {}; sh = {}; continue
+        d = fields(o)
+        if "SIGNAL" in d: fail(i, "fatal signal %s in %s" % (o.split("SIGNAL")[1].strip(), c)); break
+        if "STDEXC" in d: fail(i, "non-library exception: " + o.split("->")[1][:80]); break
+        if "EXC" in d:
+            fail(i, "bootstrap:index-range :: library exception in bootstrap(dataset, size)" if c == "QB" else "library exception on an operation inside its documented domain"); break
+        a = list(map(int, t[1:])); old = dict(Q); oldsh = dict(sh)
+        try:
+            for k, v in d.items():
+                m = re.match(r"Q(\d)$", k)
+                if m:
+                    pv = parse_w(v)
+                    if pv is None: fail(i, "%s: label / weight batches not aligned with the input batches :: %s" % (k, v[:80])); break
+                    Q[int(m.group(1))] = pv
+                m = re.match(r"qs(\d)$", k)
+                if m: sh[int(m.group(1))] = v
+            if bad: break
+            for k, v in d.items():
+                m = re.match(r"sumw(\d)$", k)
+                if m:
+                    r_ = int(m.group(1)); want = sum(e[2] for e in flat(Q[r_]))
+                    if float(v) != want: fail(i, "sumOfWeights = %s, the weights sum to %s" % (v, want))
+                    if flat(Q[r_]):
+                        ncl = max(e[1] for e in flat(Q[r_])) + 1; cw = [sum(e[2] for e in flat(Q[r_]) if e[1] == cl) for cl in range(ncl)]
+                        if [float(x) for x in d.get("cw%d" % r_, "").split(",")] != [float(x) for x in cw]: fail(i, "classWeight = %s, the class sums are %s" % (d.get("cw%d" % r_), cw))
+            if bad: break
+            if c == "QN":
+                r_, n, m = a[0], a[1], a[2]; labs = a[3:3 + n]; ids = a[3 + n:3 + 2 * n]; ws = a[3 + 2 * n:3 + 3 * n]
+                if flat(Q[r_]) != list(zip(ids, labs, ws)): fail(i, "created weighted dataset does not hold (input, label, weight) i at position i")
+            elif c == "QU":
+                r_, q, w = a
+                if [[(e[0], e[1]) for e in b] for b in Q[q]] != [[(e[0], e[1]) for e in b] for b in old[r_]]: fail(i, "uniform-weight construction changed the data")
+                if any(e[2] != w for e in flat(Q[q])): fail(i, "uniform-weight construction: a weight differs from %d" % w)
+                if sh.get(q) != oldsh.get(r_): fail(i, "element shape lost :: %s -> %s" % (oldsh.get(r_), sh.get(q)))
+            elif c == "QI":
+                r_, q = a[0], a[1]
+                if Q[q] != [old[r_][k] for k in a[2:]]: fail(i, "indexedSubset separated a weight from its element or returned other batches")
+                if sh.get(q) != oldsh.get(r_): fail(i, "element shape lost :: %s -> %s" % (oldsh.get(r_), sh.get(q)))
+            elif c == "QL":
+                r_, q, b = a
+                if Q[r_] != old[r_][:b] or Q[q] != old[r_][b:]: fail(i, "splice: left / right are not the batches before / from the cut with their weights")
+                if sh.get(q) != oldsh.get(r_) or sh.get(r_) != oldsh.get(r_): fail(i, "element shape lost :: %s -> %s / %s" % (oldsh.get(r_), sh.get(r_), sh.get(q)))
+            elif c == "QA":
+                if Q[a[0]] != old[a[0]] + old[a[1]]: fail(i, "append is not the concatenation of the weighted batches")
+            elif c in ("QP", "QS"):
+                if flat(Q[a[0]]) != flat(old[a[0]]): fail(i, "a weight left its element (or order changed)")
+                if c == "QP" and [len(b) for b in Q[a[0]]] != a[1:]: fail(i, "batch sizes differ from the requested partitioning")
+                if sh.get(a[0]) != oldsh.get(a[0]): fail(i, "element shape lost :: %s -> %s" % (oldsh.get(a[0]), sh.get(a[0])))
+            elif c == "QB":
+                r_, q, size = a[0], a[1], a[2]; n = len(flat(old[r_])); size = size or n
+                if [[(e[0], e[1]) for e in b] for b in Q[q]] != [[(e[0], e[1]) for e in b] for b in old[r_]]: fail(i, "bootstrap changed the data or its batches")
+                ws = [e[2] for e in flat(Q[q])]
+                if any(w < 0 or w != int(w) for w in ws): fail(i, "bootstrap:index-range :: a bootstrap weight is not a non-negative integer: %s" % ws)
+                elif sum(ws) != size: fail(i, "bootstrap:index-range :: bootstrap weights sum to %s, %d draws were requested" % (sum(ws), size))
+                if sh.get(q) != oldsh.get(r_): fail(i, "element shape lost :: %s -> %s" % (oldsh.get(r_), sh.get(q)))
+                if size < n:
+                    BOOT_STAT["small"] += 1
+                    if any(w > 0 for w in ws[size:]): BOOT_STAT["beyond"] += 1
+            elif c == "QX":
+                if d.get("wi") not in (None, "NA"):
+                    want = "[" + "|".join(",".join("%d:%s" % (e[0], e[2]) for e in b) for b in Q[a[0]]) + "]"
+                    if d["wi"] != want: fail(i, "weightedInputs: inputs and weights are not the ones of the dataset :: %s, expected %s" % (d["wi"], want))
+        except (KeyError, IndexError, ValueError, TypeError) as ex:
+            fail(i, "unparsable/incomplete output (%s): %s" % (type(ex).__name__, o[:120]))
+        if bad: break
+    return bad
+
+def valid_w(lines, mout):
+    Q = {}
+    for l, o in zip(lines, mout):
+        t = l.split()
+        if t[0] == "C": Q = {}; continue
+        if not t[0].startswith("Q"): return False
+        if t[0] != "QN":
+            regs = [int(t[1])] + ([int(t[2])] if t[0] == "QA" else [])
+            if any(not Q.get(r) for r in regs): return False
+        for k, v in fields(o).items():
+            m = re.match(r"Q(\d)$", k)
+            if m: Q[int(m.group(1))] = parse_w(v) if isinstance(v, str) else None
+    return True
+
 # ------------------------------------------------------------------ state tracking from implementation output
 class Track:
     """register contents as printed by the implementation"""
@@ -703,8 +857,9 @@ def main():
     total_eval = 0; samples = []; distinct = set(); opmix = {}
     types = ["dense", "uint", "sparse"]
     share_replay = bool(ck.replay) and any(l.startswith("X") for l in open(ck.replay).read().split("\n"))
+    weighted_replay = bool(ck.replay) and any(l.startswith("Q") for l in open(ck.replay).read().split("\n"))
     for ty in types:
-        if share_replay or STREAM not in ("all", "basic"): break
+        if share_replay or weighted_replay or STREAM not in ("all", "basic"): break
         tmpd = os.path.join(BUILD, "tmp", PROP, ty)
         gen = Gen(ck.rng, PROP, big)
         ncases = (250 if ty != "sparse" else 120) if not big else (3000 if ty != "sparse" else 1200)
@@ -742,11 +897,35 @@ def main():
                 for l in c: opmix[l.split()[0]] = opmix.get(l.split()[0], 0) + 1
             samples.append({"type": ty, "stream": "sharing", "case": cases[-1]})
             if ck.violations: break
+    # ---- weighted stream (C03 only): WeightedLabeledData next to the list model + C03Weighted.v
+    if PROP == "C03" and not ck.violations and STREAM in ("all", "weighted"):
+        for ty in types:
+            tmpd = os.path.join(BUILD, "tmp", PROP, "weighted_" + ty); os.makedirs(tmpd, exist_ok=True)
+            gen = GenWeighted(ck.rng, big)
+            if ck.replay: cases = [[l for l in open(ck.replay).read().split("\n") if l.strip() and not l.startswith("#")]]
+            else: cases = [gen.case() for _ in range((120 if ty != "sparse" else 60) if not big else (1500 if ty != "sparse" else 600))]
+            if ck.replay and not weighted_replay: break
+            correspond2(ck, cases, model, exe, ty, tmpd, monitor=monitor_w, resolve=resolve_w, valid_case=valid_w,
+                        what="weighted containers (C03Weighted.v) vs shark::WeightedLabeledData")
+            total_eval += sum(len(c) for c in cases)
+            for c in cases:
+                distinct.add("weighted|" + ty + "|" + "\n".join(c))
+                for l in c: opmix[l.split()[0]] = opmix.get(l.split()[0], 0) + 1
+            samples.append({"type": ty, "stream": "weighted", "case": cases[-1]})
+            if ck.violations: break
+        # bootstrap(dataset, size) with size < n: every element must be drawable, not only the first `size` ones
+        if not ck.replay and not ck.violations:
+            okb = BOOT_STAT["small"] < 30 or BOOT_STAT["beyond"] > 0
+            if not okb:
+                ck.violation("bootstrap:index-range", {"runs_with_size_below_n": BOOT_STAT["small"], "runs_with_a_weight_beyond_size": 0},
+                             "bootstrap(dataset, size) with size < n never gave weight to an element with index >= size in %d runs: the indices are not drawn from all n elements" % BOOT_STAT["small"])
+            ck.oblige("bootstrap(dataset, size<n) reaches elements with index >= size (%d of %d runs)" % (BOOT_STAT["beyond"], BOOT_STAT["small"]), okb)
     ck.cov["evaluations"] = total_eval
     ck.cov["distinct_nontrivial"] = len(distinct)
     ck.cov["rule"] = "random operation histories over 4 dataset registers of LabeledData<RealVector|unsigned|CompressedRealVector, unsigned> (create, repartition, splitBatch, splice, append, reorder, shuffle, indexedSubset, splitAtElement, repartitionByClass, binarySubProblem, element/iterator access, view->dataset, view subset of subset->dataset, transform%s); element counts 1..17 (40 thorough) aimed at n mod max in {0,1,max-1}, labels with absent classes; distinct = distinct (type, history)" % (", all six CV fold constructors through the model's cv_create/scv_create (createCVIID with the drawn folds read back), validation(i)/training(i) of every fold, element shapes of the set and of every part for the input and the label container" if PROP == "C12" else "")
     ck.cov["samples"] = samples
     ck.notes["op_mix"] = opmix
+    if STREAM != "all" and not ck.replay: ck.replay = "partial run (--stream %s)" % STREAM     # evidence of a partial run goes to the scratch directory
     ck.finish()
 
 def correspond2(ck, cases, model, exe, ty, tmpd, monitor=None, resolve=None, valid_case=None, what="C03/C12 model vs shark::LabeledData"):
@@ -777,6 +956,7 @@ def correspond2(ck, cases, model, exe, ty, tmpd, monitor=None, resolve=None, val
         if rb != 0 and len(xb) < n: return xa, xb, ["implementation crashed (rc=%s) at line %d `%s`" % (rb, len(xb), lines[len(xb)][:80])], n
         return xa, xb, monitor(lines[:n], xb[:n], PROP), n
     def keyof(msg):
+        if "bootstrap:index-range" in msg: return "bootstrap:index-range"
         mc = re.match(r"implementation crashed \(rc=(-?\d+)\) at line \d+ `(\w+)", msg)
         if mc: return "%s:%s:crash rc=%s" % (ty, mc.group(2), mc.group(1))
         key0 = re.sub(r"line \d+ `[^`]*`: ", "", msg).split(" :: ")[0]      # (data details after " :: " are not part of the key)
